@@ -233,6 +233,22 @@ func VerifModelReplaceAll(s, old, new string) string {
 	}
 }
 
+func VerifModelReplace(s, old, new string, n int) string {
+	if old == "" {
+		panic("model: Replace with empty old")
+	}
+	out := ""
+	for k := 0; n < 0 || k < n; k++ {
+		i := VerifModelIndex(s, old)
+		if i < 0 {
+			break
+		}
+		out += s[:i] + new
+		s = s[i+len(old):]
+	}
+	return out + s
+}
+
 func verifInSet(c byte, set string) bool {
 	for i := 0; i < len(set); i++ {
 		if set[i] == c {
